@@ -2,6 +2,7 @@ import SemVerif.Lemmas.FlowLay
 import SemVerif.Lemmas.T2Fn
 import SemVerif.Lemmas.ExtEvents
 import SemVerif.Spec.Findings
+import SemVerif.Props.C10Res
 /-!
 # Lemmas/FlowAna — the analyzer emits laid-out code (family T4, analyzer half)
 
@@ -1167,20 +1168,431 @@ theorem lay_ifBody (hg : GlobRel g rg) (hn : GNames g) : ∀ (l : List IfBodyStm
     exact bodyj_cons (IfBodyStmt.lowerL tl) (esteps_callStmt g c s).errors_ext (steps_ifBody g tl lEnd ll false _).errors_ext he
       (fun e => ⟨cpsv_of (cps_callS hg hn _ c s ss hr e), den_callS hg hn c s ss hr e⟩)
       (fun d e => lay_ifBody hg hn tl lEnd ll b false hok hbrk hf2 hf3 (fun _ => rfl) _ _ d e)
-  | _, _, _, _, _ => sorry
+  | .loop lbody :: tl, lEnd, ll, b, rc => by
+    intro hok hbrk hf2 hf3 _ s ss hr he
+    unfold IfBodyStmt.anaOKL at hok; unfold IfBodyStmt.hasBrkL at hbrk; unfold IfBodyStmt.f2L at hf2; unfold IfBodyStmt.f3L at hf3
+    simp only [Bool.and_eq_true] at hok
+    simp only [Bool.or_eq_false_iff] at hf2 hf3
+    unfold ifBody at he ⊢
+    dsimp only at he ⊢
+    obtain ⟨h1, _, _, _, _⟩ := cons_facts rc false false (steps_loopWrap _ (steps_loopBody g lbody) _).errors_ext (steps_ifBody g tl lEnd ll rc _).errors_ext he
+    subst h1
+    rw [forbidden_fff] at he ⊢
+    rw [low_ifb_loop]
+    exact bodyj_cons (IfBodyStmt.lowerL tl) (steps_loopWrap _ (steps_loopBody g lbody) s).errors_ext (steps_ifBody g tl lEnd ll false _).errors_ext he
+      (fun e => ⟨lay_loopWrap (loopBody g lbody) (specLoopBody false rg lbody) (LoopStmt.lowerL lbody) (LoopStmt.hasRetL lbody)
+          (LoopStmt.nestedBrkL lbody) (KOf ll b) (steps_loopBody g lbody)
+          (fun lb le s ss => den_loopBody hg hn lbody lb le false false false hok.1 s ss)
+          (fun lb le b' s ss d e hb' => lay_loopBody hg hn lbody lb le b' false false false hok.1 hb' hf2.1 hf3.1.2 (fun _ => rfl) s ss d e)
+          (fun lb le s h => by rcases ret_loopBody g lbody lb le false false false s h with h | h; cases h; exact h)
+          hf3.1.1 s ss hr e,
+        (den_loopWrap _ (specLoopBody false rg lbody) (steps_loopBody g lbody)
+          (fun lb le s ss => den_loopBody hg hn lbody lb le false false false hok.1 s ss) s ss hr e).1⟩)
+      (fun d e => lay_ifBody hg hn tl lEnd ll b false hok.2 hbrk hf2.2 hf3.2 (fun _ => rfl) _ _ d e)
+  | .ifS i :: tl, lEnd, ll, b, rc => by
+    intro hok hbrk hf2 hf3 _ s ss hr he
+    cases tl with
+    | cons x tl' => unfold IfBodyStmt.f2L at hf2; cases hf2
+    | nil =>
+      unfold IfBodyStmt.anaOKL at hok; unfold IfBodyStmt.hasBrkL at hbrk; unfold IfBodyStmt.f2L at hf2; unfold IfBodyStmt.f3L at hf3
+      simp only [Bool.and_eq_true] at hok
+      simp only [Bool.or_eq_false_iff] at hf3
+      unfold ifBody at he ⊢
+      dsimp only at he ⊢
+      have hnil : ∀ (rc' bc' cc' : Bool) (s' : St), (ifBody g [] lEnd ll rc' s') = (s', rc') := by
+        intro rc' bc' cc' s'; unfold ifBody; rfl
+      obtain ⟨h1, _, _, _, _⟩ := cons_facts rc false false (steps_ifCondition g i (some lEnd) ll _).errors_ext (steps_ifBody g [] lEnd ll rc _).errors_ext he
+      subst h1
+      rw [forbidden_fff] at he ⊢
+      try rw [hnil false false false] at he ⊢
+      dsimp only at he ⊢
+      obtain ⟨_, hpass⟩ := lay_ifCondition hg hn i (some lEnd) ll b hok.1 (fun h => hbrk (by simp [h])) hf2 hf3.1 s ss hr he
+      obtain ⟨seg, c1, n1, l1⟩ := hpass lEnd rfl
+      rw [low_ifb_if, low_ifb_nil]
+      refine ⟨seg, c1, by simpa using n1, ?_⟩
+      have l1' : Lay (KOf ll b) _ _ _ _ := l1
+      have := Lay.dead [Instr.jumpTo lEnd] l1'
+      simpa using this
+  | .ret e :: tl, lEnd, ll, b, rc => by
+    intro hok hbrk hf2 hf3 _ s ss hr he
+    unfold IfBodyStmt.anaOKL at hok; unfold IfBodyStmt.hasBrkL at hbrk; unfold IfBodyStmt.f2L at hf2; unfold IfBodyStmt.f3L at hf3
+    unfold ifBody at he ⊢
+    dsimp only at he ⊢
+    have x1 := (steps_nestedReturn g e (forbidden rc false false s)).errors_ext
+    have x2 := (steps_ifBody g tl lEnd ll (rc || (nestedReturn g e (forbidden rc false false s)).2) (nestedReturn g e (forbidden rc false false s)).1).errors_ext
+    obtain ⟨h1, _, _, _, _⟩ := cons_facts rc false false x1 x2 he
+    subst h1
+    rw [forbidden_fff] at he x1 x2 ⊢
+    obtain ⟨e1, e2⟩ := chain2 x1 x2 he
+    obtain ⟨jr, jf⟩ := cps_jret hg hn (KOf ll b) e s ss hr e1
+    have jd := den_nestedReturn hg hn e s ss hr e1
+    rw [jf] at he e2 ⊢
+    simp only [Bool.false_or] at he e2 ⊢
+    rw [low_ifb_ret]
+    cases tl with
+    | nil =>
+      have hnil : ∀ (s' : St), (ifBody g [] lEnd ll true s') = (s', true) := by
+        intro s'; unfold ifBody; rfl
+      rw [hnil, low_ifb_nil]
+      dsimp only
+      have := RetV.body (lEnd := lEnd) (res := ((nestedReturn g e s).1, true)) jr
+      simpa using this
+    | cons x tl' =>
+      have ih := lay_ifBody hg hn (x :: tl') lEnd ll b true hok hbrk hf2 hf3 (fun h => by cases h) _ _ jd e2
+      exact jr.cps.thenBody (by rw [jr.cps.eff] at ih; exact ih)
 theorem lay_ifLoopBody (hg : GlobRel g rg) (hn : GNames g) : ∀ (l : List IfLoopStmt) (lEnd lb le : Name) (b rc bc cc : Bool),
     IfLoopStmt.anaOKL l = true → (IfLoopStmt.hasBrkL l = true → b = true) → IfLoopStmt.f2L l = false →
     IfLoopStmt.f3L l = false → (l = [] → rc = false) →
     ∀ s ss, DRel s ss → (ifLoopBody g l lEnd lb le rc bc cc s).1.errors = s.errors →
       BodyJ (some (lb, le, b)) s (ifLoopBody g l lEnd lb le rc bc cc s) (IfLoopStmt.lowerL l (effCount s.root.context)) lEnd
-  | _, _, _, _, _, _, _, _ => sorry
+  | [], lEnd, lb, le, b, rc, bc, cc => by
+    intro _ _ _ _ hrc s ss hr _
+    have : rc = false := hrc rfl
+    subst this
+    unfold ifLoopBody
+    rw [low_ifl_nil]
+    refine ⟨[], by simp, by simp [effCount], ?_⟩
+    simpa using Lay.jmp (some (lb, le, b)) (effCount s.root.context) lEnd []
+  | .letB bd :: tl, lEnd, lb, le, b, rc, bc, cc => by
+    intro hok hbrk hf2 hf3 _ s ss hr he
+    unfold IfLoopStmt.anaOKL at hok; unfold IfLoopStmt.hasBrkL at hbrk; unfold IfLoopStmt.f2L at hf2; unfold IfLoopStmt.f3L at hf3
+    unfold ifLoopBody at he ⊢
+    dsimp only at he ⊢
+    obtain ⟨h1, h2, h3, _, _⟩ := cons_facts rc bc cc (esteps_letBinding g bd _).errors_ext (steps_ifLoopBody g tl lEnd lb le rc bc cc _).errors_ext he
+    subst h1; subst h2; subst h3
+    rw [forbidden_fff] at he ⊢
+    rw [low_ifl_let]
+    exact bodyj_cons (IfLoopStmt.lowerL tl) (esteps_letBinding g bd s).errors_ext (steps_ifLoopBody g tl lEnd lb le false false false _).errors_ext he
+      (fun e => ⟨cpsv_of (cps_let hg hn _ bd s ss hr e), den_let hg hn bd s ss hr e⟩)
+      (fun d e => lay_ifLoopBody hg hn tl lEnd lb le b false false false hok hbrk hf2 hf3 (fun _ => rfl) _ _ d e)
+  | .bind bd :: tl, lEnd, lb, le, b, rc, bc, cc => by
+    intro hok hbrk hf2 hf3 _ s ss hr he
+    unfold IfLoopStmt.anaOKL at hok; unfold IfLoopStmt.hasBrkL at hbrk; unfold IfLoopStmt.f2L at hf2; unfold IfLoopStmt.f3L at hf3
+    unfold ifLoopBody at he ⊢
+    dsimp only at he ⊢
+    obtain ⟨h1, h2, h3, _, _⟩ := cons_facts rc bc cc (esteps_binding g bd _).errors_ext (steps_ifLoopBody g tl lEnd lb le rc bc cc _).errors_ext he
+    subst h1; subst h2; subst h3
+    rw [forbidden_fff] at he ⊢
+    rw [low_ifl_bind]
+    exact bodyj_cons (IfLoopStmt.lowerL tl) (esteps_binding g bd s).errors_ext (steps_ifLoopBody g tl lEnd lb le false false false _).errors_ext he
+      (fun e => ⟨cpsv_of (cps_bind hg hn _ bd s ss hr e), den_bind hg hn bd s ss hr e⟩)
+      (fun d e => lay_ifLoopBody hg hn tl lEnd lb le b false false false hok hbrk hf2 hf3 (fun _ => rfl) _ _ d e)
+  | .call c :: tl, lEnd, lb, le, b, rc, bc, cc => by
+    intro hok hbrk hf2 hf3 _ s ss hr he
+    unfold IfLoopStmt.anaOKL at hok; unfold IfLoopStmt.hasBrkL at hbrk; unfold IfLoopStmt.f2L at hf2; unfold IfLoopStmt.f3L at hf3
+    unfold ifLoopBody at he ⊢
+    dsimp only at he ⊢
+    obtain ⟨h1, h2, h3, _, _⟩ := cons_facts rc bc cc (esteps_callStmt g c _).errors_ext (steps_ifLoopBody g tl lEnd lb le rc bc cc _).errors_ext he
+    subst h1; subst h2; subst h3
+    rw [forbidden_fff] at he ⊢
+    rw [low_ifl_call]
+    exact bodyj_cons (IfLoopStmt.lowerL tl) (esteps_callStmt g c s).errors_ext (steps_ifLoopBody g tl lEnd lb le false false false _).errors_ext he
+      (fun e => ⟨cpsv_of (cps_callS hg hn _ c s ss hr e), den_callS hg hn c s ss hr e⟩)
+      (fun d e => lay_ifLoopBody hg hn tl lEnd lb le b false false false hok hbrk hf2 hf3 (fun _ => rfl) _ _ d e)
+  | .loop lbody :: tl, lEnd, lb, le, b, rc, bc, cc => by
+    intro hok hbrk hf2 hf3 _ s ss hr he
+    unfold IfLoopStmt.anaOKL at hok; unfold IfLoopStmt.hasBrkL at hbrk; unfold IfLoopStmt.f2L at hf2; unfold IfLoopStmt.f3L at hf3
+    simp only [Bool.and_eq_true] at hok
+    simp only [Bool.or_eq_false_iff] at hf2 hf3
+    unfold ifLoopBody at he ⊢
+    dsimp only at he ⊢
+    obtain ⟨h1, h2, h3, _, _⟩ := cons_facts rc bc cc (steps_loopWrap _ (steps_loopBody g lbody) _).errors_ext (steps_ifLoopBody g tl lEnd lb le rc bc cc _).errors_ext he
+    subst h1; subst h2; subst h3
+    rw [forbidden_fff] at he ⊢
+    rw [low_ifl_loop]
+    exact bodyj_cons (IfLoopStmt.lowerL tl) (steps_loopWrap _ (steps_loopBody g lbody) s).errors_ext (steps_ifLoopBody g tl lEnd lb le false false false _).errors_ext he
+      (fun e => ⟨lay_loopWrap (loopBody g lbody) (specLoopBody false rg lbody) (LoopStmt.lowerL lbody) (LoopStmt.hasRetL lbody)
+          (LoopStmt.nestedBrkL lbody) (some (lb, le, b)) (steps_loopBody g lbody)
+          (fun lb le s ss => den_loopBody hg hn lbody lb le false false false hok.1 s ss)
+          (fun lb le b' s ss d e hb' => lay_loopBody hg hn lbody lb le b' false false false hok.1 hb' hf2.1 hf3.1.2 (fun _ => rfl) s ss d e)
+          (fun lb le s h => by rcases ret_loopBody g lbody lb le false false false s h with h | h; cases h; exact h)
+          hf3.1.1 s ss hr e,
+        (den_loopWrap _ (specLoopBody false rg lbody) (steps_loopBody g lbody)
+          (fun lb le s ss => den_loopBody hg hn lbody lb le false false false hok.1 s ss) s ss hr e).1⟩)
+      (fun d e => lay_ifLoopBody hg hn tl lEnd lb le b false false false hok.2 hbrk hf2.2 hf3.2 (fun _ => rfl) _ _ d e)
+  | .ifS i :: tl, lEnd, lb, le, b, rc, bc, cc => by
+    intro hok hbrk hf2 hf3 _ s ss hr he
+    cases tl with
+    | cons x tl' => unfold IfLoopStmt.f2L at hf2; cases hf2
+    | nil =>
+      unfold IfLoopStmt.anaOKL at hok; unfold IfLoopStmt.hasBrkL at hbrk; unfold IfLoopStmt.f2L at hf2; unfold IfLoopStmt.f3L at hf3
+      simp only [Bool.and_eq_true] at hok
+      simp only [Bool.or_eq_false_iff] at hf3
+      unfold ifLoopBody at he ⊢
+      dsimp only at he ⊢
+      have hnil : ∀ (rc' bc' cc' : Bool) (s' : St), (ifLoopBody g [] lEnd lb le rc' bc' cc' s') = (s', rc') := by
+        intro rc' bc' cc' s'; unfold ifLoopBody; rfl
+      obtain ⟨h1, h2, h3, _, _⟩ := cons_facts rc bc cc (steps_ifCondition g i (some lEnd) (some (lb, le)) _).errors_ext (steps_ifLoopBody g [] lEnd lb le rc bc cc _).errors_ext he
+      subst h1; subst h2; subst h3
+      rw [forbidden_fff] at he ⊢
+      try rw [hnil false false false] at he ⊢
+      dsimp only at he ⊢
+      obtain ⟨_, hpass⟩ := lay_ifCondition hg hn i (some lEnd) (some (lb, le)) b hok.1 (fun h => hbrk (by simp [h])) hf2 hf3.1 s ss hr he
+      obtain ⟨seg, c1, n1, l1⟩ := hpass lEnd rfl
+      rw [low_ifl_if, low_ifl_nil]
+      refine ⟨seg, c1, by simpa using n1, ?_⟩
+      have l1' : Lay (some (lb, le, b)) _ _ _ _ := l1
+      have := Lay.dead [Instr.jumpTo lEnd] l1'
+      simpa using this
+  | .ret e :: tl, lEnd, lb, le, b, rc, bc, cc => by
+    intro hok hbrk hf2 hf3 _ s ss hr he
+    unfold IfLoopStmt.anaOKL at hok; unfold IfLoopStmt.hasBrkL at hbrk; unfold IfLoopStmt.f2L at hf2; unfold IfLoopStmt.f3L at hf3
+    unfold ifLoopBody at he ⊢
+    dsimp only at he ⊢
+    have x1 := (steps_nestedReturn g e (forbidden rc bc cc s)).errors_ext
+    have x2 := (steps_ifLoopBody g tl lEnd lb le (rc || (nestedReturn g e (forbidden rc bc cc s)).2) bc cc (nestedReturn g e (forbidden rc bc cc s)).1).errors_ext
+    obtain ⟨h1, h2, h3, _, _⟩ := cons_facts rc bc cc x1 x2 he
+    subst h1; subst h2; subst h3
+    rw [forbidden_fff] at he x1 x2 ⊢
+    obtain ⟨e1, e2⟩ := chain2 x1 x2 he
+    obtain ⟨jr, jf⟩ := cps_jret hg hn (some (lb, le, b)) e s ss hr e1
+    have jd := den_nestedReturn hg hn e s ss hr e1
+    rw [jf] at he e2 ⊢
+    simp only [Bool.false_or] at he e2 ⊢
+    rw [low_ifl_ret]
+    cases tl with
+    | nil =>
+      have hnil : ∀ (s' : St), (ifLoopBody g [] lEnd lb le true false false s') = (s', true) := by
+        intro s'; unfold ifLoopBody; rfl
+      rw [hnil, low_ifl_nil]
+      dsimp only
+      have := RetV.body (lEnd := lEnd) (res := ((nestedReturn g e s).1, true)) jr
+      simpa using this
+    | cons x tl' =>
+      have ih := lay_ifLoopBody hg hn (x :: tl') lEnd lb le b true false false hok hbrk hf2 hf3 (fun h => by cases h) _ _ jd e2
+      exact jr.cps.thenBody (by rw [jr.cps.eff] at ih; exact ih)
+  | .brk :: tl, lEnd, lb, le, b, rc, bc, cc => by
+    intro hok hbrk hf2 hf3 _ s ss hr he
+    unfold IfLoopStmt.anaOKL at hok; unfold IfLoopStmt.hasBrkL at hbrk; unfold IfLoopStmt.f2L at hf2; unfold IfLoopStmt.f3L at hf3
+    have hb : b = true := hbrk rfl
+    unfold ifLoopBody at he ⊢
+    dsimp only at he ⊢
+    have x1 : ∃ Δ, ((forbidden rc bc cc s).push (Instr.jumpTo le)).errors = (forbidden rc bc cc s).errors ++ Δ := ⟨[], by simp [St.push, St.mapFrames]⟩
+    have x2 := (steps_ifLoopBody g tl lEnd lb le rc true cc ((forbidden rc bc cc s).push (Instr.jumpTo le))).errors_ext
+    obtain ⟨h1, h2, h3, _, _⟩ := cons_facts rc bc cc x1 x2 he
+    subst h1; subst h2; subst h3
+    rw [forbidden_fff] at he x1 x2 ⊢
+    have e2 := (chain2 x1 x2 he).2
+    have jd : DRel (s.push (Instr.jumpTo le)) ss := drel_same hr (quiet_push _ (skipped_jumpTo _) _) (vals_push _ _)
+    have jr : RetV (some (lb, le, b)) s (s.push (Instr.jumpTo le)) ([Flow.brk], effCount s.root.context) :=
+      ⟨[Instr.jumpTo le], rfl, by simp [effCount, Instr.isEffect], fun rest code e => by
+        subst hb
+        simpa using Lay.brk (effCount s.root.context) rest lb le code e⟩
+    rw [low_ifl_brk]
+    cases tl with
+    | nil =>
+      have hnil : ∀ (rc' bc' cc' : Bool) (s' : St), (ifLoopBody g [] lEnd lb le rc' bc' cc' s') = (s', rc') := by
+        intro rc' bc' cc' s'; unfold ifLoopBody; rfl
+      rw [hnil, low_ifl_nil]
+      dsimp only
+      have := RetV.body (lEnd := lEnd) (res := (s.push (Instr.jumpTo le), false)) jr
+      simpa using this
+    | cons x tl' =>
+      have ih := lay_ifLoopBody hg hn (x :: tl') lEnd lb le b false true false hok (fun _ => hb) hf2 hf3 (fun h => by cases h) _ _ jd e2
+      exact jr.cps.thenBody (by rw [jr.cps.eff] at ih; exact ih)
+  | .cont :: tl, lEnd, lb, le, b, rc, bc, cc => by
+    intro hok hbrk hf2 hf3 _ s ss hr he
+    unfold IfLoopStmt.anaOKL at hok; unfold IfLoopStmt.hasBrkL at hbrk; unfold IfLoopStmt.f2L at hf2; unfold IfLoopStmt.f3L at hf3
+    
+    unfold ifLoopBody at he ⊢
+    dsimp only at he ⊢
+    have x1 : ∃ Δ, ((forbidden rc bc cc s).push (Instr.jumpTo lb)).errors = (forbidden rc bc cc s).errors ++ Δ := ⟨[], by simp [St.push, St.mapFrames]⟩
+    have x2 := (steps_ifLoopBody g tl lEnd lb le rc bc true ((forbidden rc bc cc s).push (Instr.jumpTo lb))).errors_ext
+    obtain ⟨h1, h2, h3, _, _⟩ := cons_facts rc bc cc x1 x2 he
+    subst h1; subst h2; subst h3
+    rw [forbidden_fff] at he x1 x2 ⊢
+    have e2 := (chain2 x1 x2 he).2
+    have jd : DRel (s.push (Instr.jumpTo lb)) ss := drel_same hr (quiet_push _ (skipped_jumpTo _) _) (vals_push _ _)
+    have jr : RetV (some (lb, le, b)) s (s.push (Instr.jumpTo lb)) ([Flow.cont], effCount s.root.context) :=
+      ⟨[Instr.jumpTo lb], rfl, by simp [effCount, Instr.isEffect], fun rest code e => by
+        skip
+        simpa using Lay.cont (effCount s.root.context) rest lb le _ code e⟩
+    rw [low_ifl_cont]
+    cases tl with
+    | nil =>
+      have hnil : ∀ (rc' bc' cc' : Bool) (s' : St), (ifLoopBody g [] lEnd lb le rc' bc' cc' s') = (s', rc') := by
+        intro rc' bc' cc' s'; unfold ifLoopBody; rfl
+      rw [hnil, low_ifl_nil]
+      dsimp only
+      have := RetV.body (lEnd := lEnd) (res := (s.push (Instr.jumpTo lb), false)) jr
+      simpa using this
+    | cons x tl' =>
+      have ih := lay_ifLoopBody hg hn (x :: tl') lEnd lb le b false false true hok hbrk hf2 hf3 (fun h => by cases h) _ _ jd e2
+      exact jr.cps.thenBody (by rw [jr.cps.eff] at ih; exact ih)
 theorem lay_loopBody (hg : GlobRel g rg) (hn : GNames g) : ∀ (l : List LoopStmt) (lb le : Name) (b rc bc cc : Bool),
     LoopStmt.anaOKL l = true → (LoopStmt.nestedBrkL l = true → b = true) → LoopStmt.f2L l = false →
     LoopStmt.f3L l = false → (l = [] → rc = false) →
     ∀ s ss, DRel s ss → (loopBody g l lb le rc bc cc s).1.errors = s.errors →
       CPSv (some (lb, le, b)) s (loopBody g l lb le rc bc cc s).1 (LoopStmt.lowerL l (effCount s.root.context)) ∧
       ((loopBody g l lb le rc bc cc s).2 = true → endsRet (LoopStmt.lowerL l (effCount s.root.context)).1 = true)
-  | _, _, _, _, _, _, _ => sorry
+  | [], lb, le, b, rc, bc, cc => by
+    intro _ _ _ _ hrc s ss hr _
+    have : rc = false := hrc rfl
+    subst this
+    unfold loopBody
+    rw [low_lp_nil]
+    exact ⟨CPSv.same rfl, fun h => by cases h⟩
+  | .letB bd :: tl, lb, le, b, rc, bc, cc => by
+    intro hok hbrk hf2 hf3 _ s ss hr he
+    unfold LoopStmt.anaOKL at hok; unfold LoopStmt.nestedBrkL at hbrk; unfold LoopStmt.f2L at hf2; unfold LoopStmt.f3L at hf3
+    unfold loopBody at he ⊢
+    dsimp only at he ⊢
+    obtain ⟨h1, h2, h3, _, _⟩ := cons_facts rc bc cc (esteps_letBinding g bd _).errors_ext (steps_loopBody g tl lb le rc bc cc _).errors_ext he
+    subst h1; subst h2; subst h3
+    rw [forbidden_fff] at he ⊢
+    rw [low_lp_let]
+    exact cpsl_cons (LoopStmt.lowerL tl) (esteps_letBinding g bd s).errors_ext (steps_loopBody g tl lb le false false false _).errors_ext he
+      (fun e => ⟨cpsv_of (cps_let hg hn _ bd s ss hr e), den_let hg hn bd s ss hr e⟩)
+      (fun d e => lay_loopBody hg hn tl lb le b false false false hok hbrk hf2 hf3 (fun _ => rfl) _ _ d e)
+  | .bind bd :: tl, lb, le, b, rc, bc, cc => by
+    intro hok hbrk hf2 hf3 _ s ss hr he
+    unfold LoopStmt.anaOKL at hok; unfold LoopStmt.nestedBrkL at hbrk; unfold LoopStmt.f2L at hf2; unfold LoopStmt.f3L at hf3
+    unfold loopBody at he ⊢
+    dsimp only at he ⊢
+    obtain ⟨h1, h2, h3, _, _⟩ := cons_facts rc bc cc (esteps_binding g bd _).errors_ext (steps_loopBody g tl lb le rc bc cc _).errors_ext he
+    subst h1; subst h2; subst h3
+    rw [forbidden_fff] at he ⊢
+    rw [low_lp_bind]
+    exact cpsl_cons (LoopStmt.lowerL tl) (esteps_binding g bd s).errors_ext (steps_loopBody g tl lb le false false false _).errors_ext he
+      (fun e => ⟨cpsv_of (cps_bind hg hn _ bd s ss hr e), den_bind hg hn bd s ss hr e⟩)
+      (fun d e => lay_loopBody hg hn tl lb le b false false false hok hbrk hf2 hf3 (fun _ => rfl) _ _ d e)
+  | .call c :: tl, lb, le, b, rc, bc, cc => by
+    intro hok hbrk hf2 hf3 _ s ss hr he
+    unfold LoopStmt.anaOKL at hok; unfold LoopStmt.nestedBrkL at hbrk; unfold LoopStmt.f2L at hf2; unfold LoopStmt.f3L at hf3
+    unfold loopBody at he ⊢
+    dsimp only at he ⊢
+    obtain ⟨h1, h2, h3, _, _⟩ := cons_facts rc bc cc (esteps_callStmt g c _).errors_ext (steps_loopBody g tl lb le rc bc cc _).errors_ext he
+    subst h1; subst h2; subst h3
+    rw [forbidden_fff] at he ⊢
+    rw [low_lp_call]
+    exact cpsl_cons (LoopStmt.lowerL tl) (esteps_callStmt g c s).errors_ext (steps_loopBody g tl lb le false false false _).errors_ext he
+      (fun e => ⟨cpsv_of (cps_callS hg hn _ c s ss hr e), den_callS hg hn c s ss hr e⟩)
+      (fun d e => lay_loopBody hg hn tl lb le b false false false hok hbrk hf2 hf3 (fun _ => rfl) _ _ d e)
+  | .loop lbody :: tl, lb, le, b, rc, bc, cc => by
+    intro hok hbrk hf2 hf3 _ s ss hr he
+    unfold LoopStmt.anaOKL at hok; unfold LoopStmt.nestedBrkL at hbrk; unfold LoopStmt.f2L at hf2; unfold LoopStmt.f3L at hf3
+    simp only [Bool.and_eq_true] at hok
+    simp only [Bool.or_eq_false_iff] at hf2 hf3
+    unfold loopBody at he ⊢
+    dsimp only at he ⊢
+    obtain ⟨h1, h2, h3, _, _⟩ := cons_facts rc bc cc (steps_loopWrap _ (steps_loopBody g lbody) _).errors_ext (steps_loopBody g tl lb le rc bc cc _).errors_ext he
+    subst h1; subst h2; subst h3
+    rw [forbidden_fff] at he ⊢
+    rw [low_lp_loop]
+    exact cpsl_cons (LoopStmt.lowerL tl) (steps_loopWrap _ (steps_loopBody g lbody) s).errors_ext (steps_loopBody g tl lb le false false false _).errors_ext he
+      (fun e => ⟨lay_loopWrap (loopBody g lbody) (specLoopBody false rg lbody) (LoopStmt.lowerL lbody) (LoopStmt.hasRetL lbody)
+          (LoopStmt.nestedBrkL lbody) (some (lb, le, b)) (steps_loopBody g lbody)
+          (fun lb le s ss => den_loopBody hg hn lbody lb le false false false hok.1 s ss)
+          (fun lb le b' s ss d e hb' => lay_loopBody hg hn lbody lb le b' false false false hok.1 hb' hf2.1 hf3.1.2 (fun _ => rfl) s ss d e)
+          (fun lb le s h => by rcases ret_loopBody g lbody lb le false false false s h with h | h; cases h; exact h)
+          hf3.1.1 s ss hr e,
+        (den_loopWrap _ (specLoopBody false rg lbody) (steps_loopBody g lbody)
+          (fun lb le s ss => den_loopBody hg hn lbody lb le false false false hok.1 s ss) s ss hr e).1⟩)
+      (fun d e => lay_loopBody hg hn tl lb le b false false false hok.2 hbrk hf2.2 hf3.2 (fun _ => rfl) _ _ d e)
+  | .ifS i :: tl, lb, le, b, rc, bc, cc => by
+    intro hok hbrk hf2 hf3 _ s ss hr he
+    unfold LoopStmt.anaOKL at hok; unfold LoopStmt.nestedBrkL at hbrk; unfold LoopStmt.f2L at hf2; unfold LoopStmt.f3L at hf3
+    simp only [Bool.and_eq_true] at hok
+    simp only [Bool.or_eq_false_iff] at hf2 hf3
+    unfold loopBody at he ⊢
+    dsimp only at he ⊢
+    obtain ⟨h1, h2, h3, _, _⟩ := cons_facts rc bc cc (steps_ifCondition g i none (some (lb, le)) _).errors_ext (steps_loopBody g tl lb le rc bc cc _).errors_ext he
+    subst h1; subst h2; subst h3
+    rw [forbidden_fff] at he ⊢
+    rw [low_lp_if]
+    exact cpsl_cons (LoopStmt.lowerL tl) (steps_ifCondition g i none (some (lb, le)) s).errors_ext (steps_loopBody g tl lb le false false false _).errors_ext he
+      (fun e => ⟨(lay_ifCondition hg hn i none (some (lb, le)) b hok.1 (fun h => hbrk (by simp [h])) hf2.1 hf3.1 s ss hr e).1 rfl,
+        (den_ifCondition hg hn i none (some (lb, le)) hok.1 s ss hr e).1⟩)
+      (fun d e => lay_loopBody hg hn tl lb le b false false false hok.2 (fun h => hbrk (by simp [h])) hf2.2 hf3.2 (fun _ => rfl) _ _ d e)
+  | .ret e :: tl, lb, le, b, rc, bc, cc => by
+    intro hok hbrk hf2 hf3 _ s ss hr he
+    unfold LoopStmt.anaOKL at hok; unfold LoopStmt.nestedBrkL at hbrk; unfold LoopStmt.f2L at hf2; unfold LoopStmt.f3L at hf3
+    unfold loopBody at he ⊢
+    dsimp only at he ⊢
+    have x1 := (steps_nestedReturn g e (forbidden rc bc cc s)).errors_ext
+    have x2 := (steps_loopBody g tl lb le (rc || (nestedReturn g e (forbidden rc bc cc s)).2) bc cc (nestedReturn g e (forbidden rc bc cc s)).1).errors_ext
+    obtain ⟨h1, h2, h3, _, _⟩ := cons_facts rc bc cc x1 x2 he
+    subst h1; subst h2; subst h3
+    rw [forbidden_fff] at he x1 x2 ⊢
+    obtain ⟨e1, e2⟩ := chain2 x1 x2 he
+    obtain ⟨jr, jf⟩ := cps_jret hg hn (some (lb, le, b)) e s ss hr e1
+    have jd := den_nestedReturn hg hn e s ss hr e1
+    rw [jf] at he e2 ⊢
+    simp only [Bool.false_or] at he e2 ⊢
+    rw [low_lp_ret]
+    cases tl with
+    | nil =>
+      have hnil : ∀ (s' : St), (loopBody g [] lb le true false false s') = (s', true) := by
+        intro s'; unfold loopBody; rfl
+      rw [hnil, low_lp_nil]
+      dsimp only
+      refine ⟨?_, fun _ => ?_⟩
+      · simpa using jr.cps
+      · simpa using endsRet_lowerRet e (effCount s.root.context)
+    | cons x tl' =>
+      have ih := lay_loopBody hg hn (x :: tl') lb le b true false false hok hbrk hf2 hf3 (fun h => by cases h) _ _ jd e2
+      refine ⟨jr.cps.trans (by have := ih.1; rw [jr.cps.eff] at this; exact this), fun hr' => endsRet_append _ _ ?_⟩
+      have := ih.2 hr'; rw [jr.cps.eff] at this; exact this
+  | .brk :: tl, lb, le, b, rc, bc, cc => by
+    intro hok hbrk hf2 hf3 _ s ss hr he
+    unfold LoopStmt.anaOKL at hok; unfold LoopStmt.nestedBrkL at hbrk; unfold LoopStmt.f2L at hf2; unfold LoopStmt.f3L at hf3
+    have hb : b = true := hbrk rfl
+    unfold loopBody at he ⊢
+    dsimp only at he ⊢
+    have x1 : ∃ Δ, ((forbidden rc bc cc s).push (Instr.jumpTo le)).errors = (forbidden rc bc cc s).errors ++ Δ := ⟨[], by simp [St.push, St.mapFrames]⟩
+    have x2 := (steps_loopBody g tl lb le rc true cc ((forbidden rc bc cc s).push (Instr.jumpTo le))).errors_ext
+    obtain ⟨h1, h2, h3, _, _⟩ := cons_facts rc bc cc x1 x2 he
+    subst h1; subst h2; subst h3
+    rw [forbidden_fff] at he x1 x2 ⊢
+    have e2 := (chain2 x1 x2 he).2
+    have jd : DRel (s.push (Instr.jumpTo le)) ss := drel_same hr (quiet_push _ (skipped_jumpTo _) _) (vals_push _ _)
+    have jr : RetV (some (lb, le, b)) s (s.push (Instr.jumpTo le)) ([Flow.brk], effCount s.root.context) :=
+      ⟨[Instr.jumpTo le], rfl, by simp [effCount, Instr.isEffect], fun rest code e => by
+        subst hb
+        simpa using Lay.brk (effCount s.root.context) rest lb le code e⟩
+    rw [low_lp_brk]
+    cases tl with
+    | nil =>
+      have hnil : ∀ (rc' bc' cc' : Bool) (s' : St), (loopBody g [] lb le rc' bc' cc' s') = (s', rc') := by
+        intro rc' bc' cc' s'; unfold loopBody; rfl
+      rw [hnil, low_lp_nil]
+      dsimp only
+      refine ⟨?_, fun h => by cases h⟩
+      simpa using jr.cps
+    | cons x tl' =>
+      have ih := lay_loopBody hg hn (x :: tl') lb le b false true false hok (fun _ => hb) hf2 hf3 (fun h => by cases h) _ _ jd e2
+      refine ⟨jr.cps.trans (by have := ih.1; rw [jr.cps.eff] at this; exact this), fun hr' => endsRet_append _ _ ?_⟩
+      have := ih.2 hr'; rw [jr.cps.eff] at this; exact this
+  | .cont :: tl, lb, le, b, rc, bc, cc => by
+    intro hok hbrk hf2 hf3 _ s ss hr he
+    unfold LoopStmt.anaOKL at hok; unfold LoopStmt.nestedBrkL at hbrk; unfold LoopStmt.f2L at hf2; unfold LoopStmt.f3L at hf3
+    
+    unfold loopBody at he ⊢
+    dsimp only at he ⊢
+    have x1 : ∃ Δ, ((forbidden rc bc cc s).push (Instr.jumpTo lb)).errors = (forbidden rc bc cc s).errors ++ Δ := ⟨[], by simp [St.push, St.mapFrames]⟩
+    have x2 := (steps_loopBody g tl lb le rc bc true ((forbidden rc bc cc s).push (Instr.jumpTo lb))).errors_ext
+    obtain ⟨h1, h2, h3, _, _⟩ := cons_facts rc bc cc x1 x2 he
+    subst h1; subst h2; subst h3
+    rw [forbidden_fff] at he x1 x2 ⊢
+    have e2 := (chain2 x1 x2 he).2
+    have jd : DRel (s.push (Instr.jumpTo lb)) ss := drel_same hr (quiet_push _ (skipped_jumpTo _) _) (vals_push _ _)
+    have jr : RetV (some (lb, le, b)) s (s.push (Instr.jumpTo lb)) ([Flow.cont], effCount s.root.context) :=
+      ⟨[Instr.jumpTo lb], rfl, by simp [effCount, Instr.isEffect], fun rest code e => by
+        skip
+        simpa using Lay.cont (effCount s.root.context) rest lb le _ code e⟩
+    rw [low_lp_cont]
+    cases tl with
+    | nil =>
+      have hnil : ∀ (rc' bc' cc' : Bool) (s' : St), (loopBody g [] lb le rc' bc' cc' s') = (s', rc') := by
+        intro rc' bc' cc' s'; unfold loopBody; rfl
+      rw [hnil, low_lp_nil]
+      dsimp only
+      refine ⟨?_, fun h => by cases h⟩
+      simpa using jr.cps
+    | cons x tl' =>
+      have ih := lay_loopBody hg hn (x :: tl') lb le b false false true hok hbrk hf2 hf3 (fun h => by cases h) _ _ jd e2
+      refine ⟨jr.cps.trans (by have := ih.1; rw [jr.cps.eff] at this; exact this), fun hr' => endsRet_append _ _ ?_⟩
+      have := ih.2 hr'; rw [jr.cps.eff] at this; exact this
 end
 
 end mutualLay
